@@ -29,15 +29,29 @@ const int kAbortCodes = 1000; // 0 .. 999 reported through StdBackend::Abort(cod
 const int kAbortSites = 2;    // from Solve() / from ReportResults()
 const int kChkFail = 8;       // sol:chk:fail: documented result 150 when the solution check fails
 
+const int kRound = 7;         // mip:round=1..7 on the MIP model with a non-integral answer: rounding options must not touch the code
+
 uint64_t enumerated(const std::string&) {
-  return (uint64_t)kCodes * kPatterns * kModes + 4 + (uint64_t)kAbortCodes * kAbortSites * kModes + kChkFail;
+  return (uint64_t)kCodes * kPatterns * kModes + 4 + (uint64_t)kAbortCodes * kAbortSites * kModes + kChkFail + (uint64_t)kCodes * kRound;
 }
 
 sim::Json generate(const std::string& tier, uint64_t seed, uint64_t index) {
   (void)tier; (void)seed;
   uint64_t n = (uint64_t)kCodes * kPatterns * kModes;
   const uint64_t nab = (uint64_t)kAbortCodes * kAbortSites * kModes;
-  if (index >= n + 4 + nab + kChkFail) return sim::Json();   // finite space, enumerated completely
+  if (index >= n + 4 + nab + kChkFail + (uint64_t)kCodes * kRound) return sim::Json();   // finite space, enumerated completely
+  if (index >= n + 4 + nab + kChkFail) {    // every code under every mip:round value
+    uint64_t k = index - (n + 4 + nab + kChkFail);
+    int c = (int)(k % kCodes) - 200; int rnd = 1 + (int)(k / kCodes);
+    sim::Json sc = base_scenario(tiny_mip_nl(), true);
+    sc.ref("argv").push("alg:rays=3"); sc.ref("argv").push("alg:iisfind=1"); sc.ref("argv").push("alg:kappa=2"); sc.ref("argv").push("sol:chk:mode=0");
+    sc.ref("argv").push("mip:round=" + std::to_string(rnd));
+    sim::Json& s = sc.ref("script");
+    s.set("status", c); s.set("status_msg", "status-msg-for-code");
+    s.set("primal", "full"); s.set("dual", "full"); s.set("objvals", 1); s.set("solve_iters", 1);
+    sc.set("code", c); sc.set("pattern", 7); sc.set("mode", 0); sc.set("round", rnd);
+    return sc;
+  }
   if (index >= n + 4 + nab) {               // sol:chk:fail -> solve result 150 (documented with the option and in -!)
     uint64_t k = index - (n + 4 + nab);
     bool mip = k & 1; int mode = (k >> 1) & 1; bool violating = (k >> 2) & 1;
@@ -198,7 +212,8 @@ void judge(const sim::Json& sc, const RunRecord& rec, sim::RunResult& r) {
     r.stats.set(std::string("called.Ray"), ray ? 1 : 0);
     r.stats.set(std::string("called.DRay"), dray ? 1 : 0);
     r.stats.set(std::string("called.ComputeIIS"), iis ? 1 : 0);
-    long k = ((long)c * 16 + pat) * 2 + sc["mode"].as_int();
+    long k = (((long)c * 16 + pat) * 2 + sc["mode"].as_int()) * 8 + sc["round"].as_int(0);
+    if (sc.has("round")) r.stats.set("round_runs", 1);
     r.trace_sig = sim::fnv1a(&k, sizeof k, r.trace_sig);
   }
   if (!viol.empty()) { r.verdict = viol; r.sig = "C10:" + viol + ":" + key; r.detail = detail; }
